@@ -21,7 +21,10 @@ CLAIM = {
             "core lock and re-acquires the same class for writing without another guard held across the gap "
             "(check and act under one hold) - the check may also sit in a callee that locks and releases the class itself "
             "and whose result is branched on; (R20.4) a function that inserts a slot into the shared channel map and "
-            "afterwards writes that channel's snapshot to the store keeps the map guard until the write is done. Does not decide "
+            "afterwards writes that channel's snapshot to the store keeps the map guard until the write is done; (R20.5) "
+            "one snapshot per reply: no struct or tuple is assembled from values read under two different holds of "
+            "the chain tracker or of the node state (own acquisitions, or callees that lock and release the class "
+            "themselves), e.g. a heartbeat whose tip and height come from two acquisitions. Does not decide "
             "linearizability of outcomes (schedule-dependent values).",
     "note": "CHA over-approximates dynamic dispatch; lock identity is abstracted to the protected type (two "
             "ChannelSlot mutexes are one class); try_lock is treated as lock",
@@ -44,6 +47,7 @@ def run(ctx):
     r202(ctx)
     r203(ctx)
     r204(ctx)
+    r205(ctx)
 
 
 def r201(ctx):
@@ -392,3 +396,91 @@ def r204(ctx):
                        f"concurrent request on the new slot can persist newer state that this stale snapshot overwrites",
                        where=f"{b.file}:{sc.line}", sample="map guard held from insert to the store write")
     ctx.floor("R20.4", "functions that publish a slot and persist it", n, 2)
+
+
+# ------------------------------------------------------------------ R20.5
+SNAPSHOT_CLASSES = {"ChainTracker<ChainMonitor>", "NodeState"}
+
+
+def _slice_sites(fv, start_locals):
+    """blocks of the calls whose results the given locals (transitively, by data flow inside the function) depend on"""
+    seen, work, sites = set(), list(start_locals), set()
+    while work:
+        l = work.pop()
+        if l in seen:
+            continue
+        seen.add(l)
+        for (bi, idx, obj) in fv.defs.get(l, []):
+            if idx == "T":
+                sites.add(bi)
+                for a in obj.args:
+                    if a.place is not None:
+                        work.append(a.place.local)
+            elif obj.kind == "a":
+                rv = obj.rv
+                for o in (rv.ops or []):
+                    if o.place is not None:
+                        work.append(o.place.local)
+                if rv.place is not None:
+                    work.append(rv.place.local)
+    return sites
+
+
+def r205(ctx):
+    ctx.rule("R20.5", "one snapshot per reply: the values assembled into one struct/tuple are not read under two "
+                      "different holds of the chain tracker / node state (a concurrent update between the two reads "
+                      "gives a reply that matches no sequential order)")
+    p = ctx.prog
+    la = locks.LockAnalysis(p, scope=lambda x: False)
+    n_fn = n_agg = 0
+    anchor = False
+    for b in p.bodies.values():
+        if b.d.krate not in SCOPE_CRATES or b.d.is_bin:
+            continue
+        on = R.owner_name(p, b)
+        if R.is_test_util(on) or on in NOT_SHARED:
+            continue
+        f = la.facts(b)
+        secs = {}     # block -> {class}: a critical section of the class starts (and for callees: ends) at this call
+        for bi, c, cls, src in f["acq_sites"]:
+            if src is None and cls in SNAPSHOT_CLASSES:
+                secs.setdefault(bi, set()).add(cls)
+        held = la.held_at_blocks(b)
+        for bi, c in b.calls():
+            if bi in secs or c.callee is None or c.callee.id not in p.bodies or not c.dest.is_local():
+                continue
+            cal = p.bodies[c.callee.id]
+            if R.is_test_util(cal.name) or c.dest.local in f["guards"] or "Arc<" in b.ty(c.dest.local):
+                continue        # a handle (Arc<Node>, a guard) is not a value read from the protected state
+            for k in la.acquires(cal):
+                if k in SNAPSHOT_CLASSES and not (held and any(f["guards"].get(g) == k for g in held[bi])):
+                    secs.setdefault(bi, set()).add(k)
+        if not secs:
+            continue
+        n_fn += 1
+        fv = fnview(ctx, b)
+        for bi in sorted(fv.live_blocks()):
+            for st in b.stmts(bi):
+                if not (st.kind == "a" and st.rv.op == "agg" and len(st.rv.ops) >= 2) or "fmt::" in b.ty(st.place.local):
+                    continue
+                n_agg += 1
+                per = {}
+                for o in st.rv.ops:
+                    if o.place is None:
+                        continue
+                    for s_ in _slice_sites(fv, [o.place.local]):
+                        for k in secs.get(s_, ()):
+                            per.setdefault(k, set()).add(s_)
+                what = st.rv.a[1].name.rsplit("::", 1)[-1] if isinstance(st.rv.a, tuple) else str(st.rv.a)
+                if on.endswith("Node::get_heartbeat") and what == "Heartbeat" and per.get("ChainTracker<ChainMonitor>"):
+                    anchor = True
+                for k, ss in per.items():
+                    lines = sorted(b.term(x).call.line for x in ss)
+                    ctx.ob("R20.5", len(ss) < 2, f"{on}/torn-snapshot/{what}/{k}",
+                           f"`{on}` assembles {what} from values read under {len(ss)} different holds of {k} (lines {lines}): "
+                           f"an update of the {k} between them yields a reply that corresponds to no sequential order",
+                           where=f"{b.file}:{st.line}", sample=f"{what}: one hold of {k} (line {lines[0]})")
+    ctx.floor("R20.5", "functions reading the tracker / node state", n_fn, 20)
+    if not anchor:
+        raise R.Broken("C20/R20.5: anchor missing: Node::get_heartbeat no longer builds a Heartbeat from the chain tracker")
+    ctx.extra["aggregates_examined"] = n_agg
